@@ -181,7 +181,7 @@ func runC08(c *Ctx) {
 	rgs := f.RowGroups()
 
 	// choose the target and build its ground truth from a fresh sequential pass
-	kind := c.Case % 11
+	kind := c.Case % 13
 	var mk func() seekTarget
 	col := r.Intn(ncols)
 	rowsOf := func(rg parquet.RowGroup, name string) func() seekTarget {
@@ -254,6 +254,18 @@ func runC08(c *Ctx) {
 		view := parquet.VerifNewRowRangeRowGroup(pick, off, length)
 		c.D("range", fmt.Sprintf("%d+%d", off, length))
 		mk = rowsOf(view, "RowRangeRows")
+	case 11:
+		// the explicit asynchronous wrappers over a synchronously opened file
+		arg := parquet.AsyncRowGroup(pick)
+		mk = rowsOf(arg, "AsyncRowGroupRows")
+	case 12:
+		mk = func() seekTarget {
+			pages := parquet.AsyncPages(pick.ColumnChunks()[col].Pages())
+			if r.Bool() {
+				pages = parquet.AsyncColumnChunk(pick.ColumnChunks()[col]).Pages()
+			}
+			return &pagesTarget{name: "AsyncPages", n: pick.NumRows(), pages: pages, col: col}
+		}
 	default:
 		fa, err := openBytes(data, append(fopts, parquet.FileReadMode(parquet.ReadModeAsync))...)
 		if err != nil {
